@@ -53,7 +53,7 @@ def run(ctx):
         pool.append((gen.tt(t), gen.tt(b""), "deep-apply"))
     lines = []
     for p, e, tag in pool:
-        f = gen_prog.random_flags(r, 0.2)
+        f = runlib.pick_flags(r, tag, 0.2)
         m = r.choice([0, 0, 1, 50, r.randrange(1, 10 ** 4), r.randrange(1, 10 ** 7), 11000000000])
         kw = {}
         k = r.random()
